@@ -3,13 +3,14 @@
 # Applies a seeded change to a scratch worktree of /repo (HEAD), runs the given checks (quick tier, no evidence)
 # against it via VERIF_REPO, prints one verdict line per check, removes the worktree.
 # (Equivalent to `git -C /repo apply` + run + `git -C /repo checkout -- .`, but does not disturb other runs
-#  that are using /repo at the same time.)
+#  that are using /repo at the same time; VERIF_BUILD keeps its objects apart from /verif/build, so the same check
+#  may run concurrently for several seeds.)
 P=$(readlink -f "$1"); shift
 WT=/tmp/st_$$
 git -C /repo worktree add -f $WT HEAD -q || exit 2
 if ! git -C $WT apply "$P"; then echo "PATCH DOES NOT APPLY: $P"; git -C /repo worktree remove --force $WT; exit 2; fi
 for c in "$@"; do
-  out=$(VERIF_REPO=$WT VERIF_NPROC=${VERIF_NPROC:-8} timeout 3000 python3 /verif/run_check.py $c --tier ${TIER:-quick} --no-evidence 2>&1)
+  out=$(VERIF_BUILD=$WT/_vbuild VERIF_REPO=$WT VERIF_NPROC=${VERIF_NPROC:-8} timeout 3000 python3 /verif/run_check.py $c --tier ${TIER:-quick} --no-evidence 2>&1)
   rc=$?
   nv=$(echo "$out" | grep -c '^VIOLATION')
   first=$(echo "$out" | grep -m1 '^  sub=' | cut -c1-300)
